@@ -207,6 +207,8 @@ fn gen_writer_cfg(w: &World, kind: Kind, recs: &[Rec], magic: Option<usize>) -> 
     let maxlen = recs.iter().map(|r| r.seq.len()).max().unwrap_or(1);
     let wrap = if kind == Kind::Fasta && w.chance(1, 2) {
         Some(match (w.draw(4), magic) {
+            // "any line wrap": widths near the top of the integer range must simply mean "no wrap"
+            _ if w.chance(1, 40) => *w.pick(&[usize::MAX, usize::MAX - 1, 1usize << 63, (u32::MAX as usize) + 1, u32::MAX as usize, usize::MAX / 2 + 1]),
             (_, Some(m)) if w.chance(1, 2) => m,
             (0, _) => 1 + w.draw(maxlen.min(12) as u64) as usize,
             (1, _) => 60,
